@@ -55,9 +55,9 @@ cooldown are consulted. This is read off the handlers; the `C07_trigger_*` theor
 it declaratively, trigger by trigger. -/
 def raised (c : Cfg) (s : St) (i : In) (now : Nat) : Option Reason :=
   match i with
-  | .nbirth ts bd _ ans =>
+  | .nbirth ts _ _ ans =>
     if ts ≤ s.birthTs then none
-    else if ¬ (s.life = .birthed ∧ s.bdseq = bd) ∧ ans ≠ .ok then some .invalidPayload else none
+    else if ans ≠ .ok then some .invalidPayload else none
   | .ndeath bd =>
     -- `set_stale` does not change `bdseq`
     if bd ≠ s.bdseq then some .outOfSyncBdSeq else none
